@@ -49,7 +49,10 @@ CLAIMED = {
              "get_webentity_crawled_pages answer a permutation of the specification's pages and are refused exactly when it refuses.", T_REF, "DESIGN.md section 6 C05"),
     "C06": c(REF + "Props/C06.v: get_potential_prefix equals the specification's max(E,K) decision and writes nothing; a page insertion creates exactly "
              "what the specification's ladder dictates (iff the candidate is longer than the existing prefix; one id; the unowned variations); "
-             "installing a rule equals re-inserting the pages beneath the anchor (a permutation of them, in the index's order).", T_REF, "DESIGN.md section 6 C06",
+             "installing a rule equals re-inserting the pages beneath the anchor (a permutation of them, in the index's order). Props/C06c.v, on the "
+             "insertion path translated from the source on every run (GenTraphP.v: Traph.add_page / add_pages / __add_page with the rule ladder, "
+             "__create_webentity, the write report; the regex search is the modelled matcher): the translated request's report is the specification's "
+             "reply and the files end holding the model's next state, for every history whose reopen requests re-supply the rules.", T_REF, "DESIGN.md section 6 C06",
              "The rule family is modelled in Rules.v (stem-level matcher with re.search offset scan) and compared with Python's re on every run."),
     "C07": c(REF + "Props/C07.v: an entry (A,B,n) is in the network iff n = number of submitted links whose ends resolve to A and B (both resolved; A=B "
              "only with include_auto), n <> 0; inbound = transpose; the memory-light variant has the same entries; page tallies = pages resolving "
